@@ -23,7 +23,14 @@ import (
 	"verif/res"
 )
 
-const verifDir = "/verif"
+// verifDir is the root of the verification tree (run.sh exports VERIF_ROOT = its own
+// directory, so a work copy of /verif runs against itself).
+var verifDir = func() string {
+	if v := os.Getenv("VERIF_ROOT"); v != "" {
+		return v
+	}
+	return "/verif"
+}()
 
 type Tier string
 
